@@ -13,6 +13,7 @@ import Gpc.Driver.Printf
 import Gpc.Driver.CaseFull
 import Gpc.Driver.FileIO
 import Gpc.Driver.Generic
+import Gpc.Driver.Conc
 open Gpc.Proto
 
 /-- state of the stateful models (one operation script at a time) -/
@@ -38,6 +39,7 @@ def dispatch (st : St) (toks : List String) : St × String :=
   | "cf" :: rest => (st, Gpc.Driver.cfStep rest)
   | "fio" :: rest => (st, Gpc.Driver.fioStep rest)
   | "gm" :: rest => (st, Gpc.Driver.gmStep rest)
+  | "cc" :: rest => (st, Gpc.Driver.ccStep rest)
   | "case" :: rest => (st, Gpc.Driver.caseStep rest)
   | "str" :: rest => let (a, o) := Gpc.Driver.strStep st.str rest; ({ st with str := a }, o)
   | _ => (st, "bad-op")
